@@ -551,8 +551,42 @@ M("C13", "stage-guarded-attachment-when-it-is-made", F, "", "", "C13.R13",
 M("C13", "dns-beacon-block-never-attached", F, _DNS_EPI, "", "C13.R13")
 M("C13", "clients-share-one-options-block", F, _CLIENTS_NEW, "        http_get_client = http_post_client = HttpOptionsBlock()\n", "C13.R13")
 # the process-inject transform block made once, before the settings loop, for both architectures (the two branches as they are)
+def _tb_tail(arch, make="                transform_block = StageTransformBlock()\n"):
+    return (make + "                if prepend:\n                    transform_block.set_option(\"prepend\", prepend)\n"
+            "                if append:\n                    transform_block.set_option(\"append\", append)\n"
+            f"                if prepend or append:\n                    proc_inj.set_config_block(\"transform_{arch}\", transform_block)\n")
+
+
 M("C13", "transform-block-made-once-for-both-architectures", F, "", "", "C13.R13",
-  edits=[(F, _PROCINJ_NEW, _PROCINJ_NEW + "        transform_block = StageTransformBlock()\n"), (F, _TB_NEW, ""), (F, _TB_NEW, "")])
+  edits=[(F, _PROCINJ_NEW, _PROCINJ_NEW + "        transform_block = StageTransformBlock()\n"), (F, _tb_tail("x86"), _tb_tail("x86", "")), (F, _tb_tail("x64"), _tb_tail("x64", ""))])
 T("C13", "twin-transform-blocks-made-before-the-loop-one-each", F, "", "", edits=[
     (F, _PROCINJ_NEW, _PROCINJ_NEW + "        transform_x86 = StageTransformBlock()\n        transform_x64 = StageTransformBlock()\n"),
-    (F, _TB_NEW, "                transform_block = transform_x86\n"), (F, _TB_NEW, "                transform_block = transform_x64\n")])
+    (F, _tb_tail("x86"), _tb_tail("x86", "                transform_block = transform_x86\n")),
+    (F, _tb_tail("x64"), _tb_tail("x64", "                transform_block = transform_x64\n"))])
+# the two branches merged into one that makes a block of its own for the setting at hand (and the same with the one block made
+# before the loop: then both architectures fill and attach the same object)
+def _merged_transform_branch(make_in_branch: bool):
+    return (
+        "            elif setting in (\n                BeaconSetting.SETTING_PROCINJ_TRANSFORM_X86,\n                BeaconSetting.SETTING_PROCINJ_TRANSFORM_X64,\n            ):\n"
+        "                prepend = \"\"\n                append = \"\"\n" + _X86_FOR + _X86_BODY +
+        ("                transform_block = StageTransformBlock()\n" if make_in_branch else "") +
+        "                if prepend:\n                    transform_block.set_option(\"prepend\", prepend)\n"
+        "                if append:\n                    transform_block.set_option(\"append\", append)\n"
+        "                if prepend or append:\n                    is_x86 = setting == BeaconSetting.SETTING_PROCINJ_TRANSFORM_X86\n"
+        "                    proc_inj.set_config_block(\"transform_x86\" if is_x86 else \"transform_x64\", transform_block)\n")
+
+
+T("C13", "twin-transform-branches-merged-block-made-per-setting", F, "", "", edits=[
+    (F, _X86_LOOP + _tb_tail("x86"), ""), (F, _X64_LOOP + _tb_tail("x64"), _merged_transform_branch(True))])
+M("C13", "transform-branches-merged-block-made-before-the-loop", F, "", "", "C13.R13", edits=[
+    (F, _PROCINJ_NEW, _PROCINJ_NEW + "        transform_block = StageTransformBlock()\n"),
+    (F, _X86_LOOP + _tb_tail("x86"), ""), (F, _X64_LOOP + _tb_tail("x64"), _merged_transform_branch(False))])
+# the attachment guarded by a condition that does not cover all that was put into the block / the same guard moved
+M("C13", "x64-transform-attached-only-with-a-prepend", F, "                if prepend or append:\n" + _X64_ATTACH, "                if prepend:\n" + _X64_ATTACH, "C13.R13")
+_GATE_BRANCH = (
+    "            elif setting == BeaconSetting.SETTING_BEACON_GATE and value:\n"
+    "                block = BeaconGateBlock.from_beacon_gate_option_strings(value)\n                stage.set_config_block(\"beacon_gate\", block)\n"
+)
+T("C13", "twin-beacon-gate-guard-at-the-attachment", F, _GATE_BRANCH,
+  "            elif setting == BeaconSetting.SETTING_BEACON_GATE:\n                block = BeaconGateBlock.from_beacon_gate_option_strings(value)\n"
+  "                if value:\n                    stage.set_config_block(\"beacon_gate\", block)\n")
